@@ -228,7 +228,16 @@ def check(ctx, w, interesting, rule="R13.9"):
         if not (fn.thir and thir.root(fn) is not None):
             continue
         v = thir.expr_value(thir.root(fn))
-        if not (v[0] == "v" and v[2] == "WatchedPath" and v[1].endswith("WatchedPath")) or (fn.impl_trait and fn.impl_trait.endswith(("Default", "Clone"))):
+        if fn.impl_trait and fn.impl_trait.endswith(("Default", "Clone")):
+            continue
+        if v[0] == "call" and strip_generics(v[1]).endswith(("WatchedPath::recursive", "WatchedPath::non_recursive")) and "WatchedPath" in (fn.self_ty or fn.def_):
+            # a conversion that delegates to one of the two named constructors
+            n_c += 1
+            ctx.require(strip_generics(v[1]).endswith("WatchedPath::recursive") and v[2] in ([("var", "path")],), rule, "element:ctor:" + fn.def_.split("watched_path::")[-1][:60],
+                        "%s delegates to WatchedPath::recursive(path)" % fn.def_.split("::")[-1], fn.loc(fn.line), detail=str(v)[:160],
+                        fail="%s builds its WatchedPath through %s: the default recursion mode of a plain path is no longer recursive" % (fn.def_, v[1]))
+            continue
+        if not (v[0] == "v" and v[2] == "WatchedPath" and v[1].endswith("WatchedPath")):
             continue
         n_c += 1
         want_rec = not fn.def_.endswith("::non_recursive")
